@@ -456,8 +456,9 @@ def s1(ctx):
     pos_of = {}
     for i, toks in wnode.items():
         flds = [t for t in toks if t in fields]
-        ctx.require(len(flds) == 1, 'ToPickleable position %d mentions fields %s' % (i, sorted(toks)))
-        pos_of[flds[0]] = i
+        ctx.require(len(flds) <= 1, 'ToPickleable position %d mentions fields %s' % (i, sorted(toks)))
+        if flds:
+            pos_of[flds[0]] = i
     for fld in fields:
         ctx.check('ToPickleable/has-' + fld, fld in pos_of,
                   'Node::%s is part of the pickled state (position %s)' % (fld, pos_of.get(fld)),
